@@ -125,6 +125,10 @@ def segmentation(ctx):
     for i in range(n):
         ehlo = G.rand_ehlo(rng)
         r1 = G.rand_reply(rng, code=rng.choice([250, 250, 550, 451]), maxlines=rng.choice([3, 12]))
+        if i % 5 == 0:
+            r1 = G.big_reply(rng, rng.choice([250, 550]), first=b"big")[0]
+        if i % 7 == 0:
+            ehlo = G.big_reply(rng, 250)[0]
         extra = rng.random() < 0.3
         chunk2 = r1 + (G.rand_reply(rng, code=250) if extra else b"")   # several replies in one segment
         if rng.random() < 0.2:
@@ -134,7 +138,7 @@ def segmentation(ctx):
         sc = {"hello": b"seg.test", "script": script, "ops": ops}
         # several segmentations of the same scenario
         L = len(chunk2)
-        variants = [None, {2: list(range(1, L))}]                       # whole, byte-at-a-time
+        variants = [None, {2: list(range(1, min(L, 400)))}]                       # whole, byte-at-a-time
         for _ in range(3):
             cuts = sorted(set(rng.randint(1, max(1, L - 1)) for _ in range(rng.randint(1, 3)))) if L > 1 else []
             variants.append({2: cuts, 1: [rng.randint(1, len(ehlo) - 1)]})
@@ -194,8 +198,29 @@ def classify_serverinfo(lines, got):
     return "unexplained"
 
 
+def truncation(ctx):
+    """The stream closes at every point of a reply (after k bytes, k = 0..len) at several dialogue positions:
+    the client must return an error at once - no panic, no endless wait."""
+    rng = ctx.rng
+    scs = []
+    replies = [b"250 ok\r\n", b"250-first\r\n250-second\r\n250 last\r\n", b"550 no\r\n", b"354 go\r\n"]
+    for pos in (0, 1, 2, 3, 4):         # greeting, EHLO, MAIL, RCPT, DATA
+        for rep in replies:
+            cuts = range(0, len(rep)) if ctx.tier == "thorough" else sorted(set([0, 1, 3, 4, 5, len(rep) // 2, len(rep) - 2, len(rep) - 1]))
+            for k in cuts:
+                script = [(b"220 hi\r\n", False), (b"250 srv\r\n", False), (b"250 ok\r\n", False), (b"250 ok\r\n", False), (b"354 go\r\n", False), (b"250 ok\r\n", False)]
+                script = script[:pos] + [(rep[:k], True)]
+                scs.append({"hello": b"trunc.test", "script": script, "ops": [("send", b"a@x.org", [b"b@y.org"], b"m\r\n"), ("noop",)], "timeout_ms": 1500})
+    bad, parsed, ml = run_differential(ctx, scs)
+    for sc in scs:
+        ctx.nontrivial(b"trunc" + repr(sc["script"]).encode())
+    ctx.cov["correspondence"]["stream_closed_inside_reply"] = {"dialogues": len(scs) * 2, "disagreements": len(bad)}
+    return scs, bad
+
+
 def run(ctx):
     known = {e["class"]: e for e in load_known("C15")}
+    tscs, tbad = truncation(ctx)
     inputs, impl, model, diffs, obad = pure_sweep(ctx)
     cases, simpl, smodel, sdiffs, spanics = serverinfo_sweep(ctx)
     scs, segbad = segmentation(ctx)
@@ -248,6 +273,7 @@ def run(ctx):
         k, cl = si_unexpl[0]
         ctx.violation({"kind": "oracle", "entry": "ServerInfo::from_response", "code": cases[k][0], "lines_hex": [hx(l) for l in cases[k][1]], "impl": simpl[k],
                        "rfc_reading": sorted(spec_features(cases[k][1])), "failures": len(si_unexpl)})
+    segbad = tbad + segbad
     if segbad:
         i, fl, why, r, ml, isc = segbad[0]
         ctx.violation({"kind": "correspondence-dialogue", "flavor": fl, "what": why, "scenario": isc, "model": ml, "impl": r}, nofail=not _is_prop_failure(why))
@@ -289,7 +315,7 @@ def _first_word(l):
 
 
 def _is_prop_failure(why):
-    return why.startswith("results differ") or "panic" in why
+    return why.startswith("results differ") or "panic" in why or "hung" in why
 
 
 def replay(ctx, path):
